@@ -42,6 +42,20 @@ def gen(rng, tier):
         yield Case(sx.dump(['split', s, e, b]), nt(s, e, b), 'random')
 
 
+def agree(case, impl, model):
+    """equal canonical forms; at start = u64::MAX (a necessarily empty record, excluded by the guard start < W of the
+    rsplit theorem: the pinned code panics on start + 1) yielding nothing is what the property asks for, so it is accepted"""
+    if canon(case, impl) == canon(case, model):
+        return True
+    try:
+        c = sx.parse(case)
+        if int(c[1]) == W64 and 'panic' in model and 'ORACLE-FAIL' not in impl:
+            return canon(case, impl) == ['r', ['sp'], ['rsp']]
+    except Exception:
+        pass
+    return False
+
+
 def classify(case, impl, model):
     return 'mismatch'
 
